@@ -16,7 +16,7 @@ def gen_inputs(rnd, n):
             (corpus.EVAL_ERROR_PROFILE, corpus.OK_DOCS[0])] + [(p, d) for p, d, _ in fx]
     sm = [(p, d) for p, d in base if len(d) < 20000]
     out = []
-    for prof in corpus.PARSE_ERROR_PROFILES + corpus.GEN_ERROR_PROFILES + corpus.REGO_ERROR_PROFILES + corpus.NON_OBJECT_RESULT_PROFILES:
+    for prof in corpus.PARSE_ERROR_PROFILES + corpus.GEN_ERROR_PROFILES + corpus.REGO_ERROR_PROFILES + corpus.NON_OBJECT_RESULT_PROFILES + corpus.EMPTY_SHAPE_PROFILES:
         out.append((prof, rnd.choice(corpus.OK_DOCS), "unknown"))
     for d in corpus.NO_NODES_DOCS + corpus.NOT_JSON_DOCS + corpus.LD_REJECT_DOCS:
         out.append((rnd.choice([corpus.OK_PROFILE, corpus.OK_PROFILE_NESTED]), d, "ok"))
@@ -68,8 +68,11 @@ def run_(tier):
     for i, (p, d, pc) in enumerate(inputs):
         dc = dclass[i]
         cases.append({"entry": ENTRIES[i % len(ENTRIES)] if tier == "quick" else rnd.choice(ENTRIES),
-                      "chan": rnd.choice(["none", "unbuf", "buf"]), "profile": p, "data": d,
+                      "chan": rnd.choice(["none", "unbuf", "buf", "bufSmall"]), "profile": p, "data": d,
                       "pclass": pc, "dclass": dc if dc != "ok" else "unknown"})
+        if i % 4 == 0:
+            # the same texts submitted again, back to back, in the same process (a service retrying a request)
+            cases.append(dict(cases[-1], chan="none", repeat=3))
     obs = proto.run_cases("c17", cases)
     # the first call a process ever makes (no warm-up history): one process per case
     first = []
